@@ -32,7 +32,7 @@ Fixpoint check (fuel : nat) (held : list mtx) (code : list instr) : option (list
           match i with
           | ILock m => match held with [] => check f [m] rest | _ => None end        (* never while holding another *)
           | IUnlock m => match held with [m'] => if mtx_eqb m m' then check f [] rest else None | _ => None end
-          | IAInc _ | IALoad _ | INotify | IStart | IRes | IDone => check f held rest
+          | IAInc _ | IALoad _ | INotify | IStart | IRes | IDone | IRead _ => check f held rest
           | IADec NC => if holds held QM then check f held rest else None               (* re-enabling notification: under the mutex *)
           | IADec EC => check f held rest
           | ICvWait _ => match held with [QM] => check f held rest | _ => None end
@@ -88,6 +88,24 @@ Proof. vm_compute. reflexivity. Qed.
 Example p7_schedule_now_completes :
   let tr := qc_run_case 400 [[AWait]; [AEnqueue 0 11%Z; ADisableBegin; AEnqueue 2 12%Z; ADisableEnd]]
                         [1; 1; 0; 1; 1; 1; 1; 1; 1; 1; 0; 0; 1; 1; 1] in
+  existsb (fun a => match a with CDeadlock _ _ => true | _ => false end) tr = false /\
+  existsb (fun a => match a with CDone 0 => true | _ => false end) tr = true.
+Proof. vm_compute. split; reflexivity. Qed.
+
+(* regression witness for the repaired put-back of processIf / processUntil (7d407be): without the notify after the
+   put-back, the schedule of corpus/qconc/p13_putback_lost_wakeup.case leaves the waiter parked on a queue that
+   holds an event (thread 1's enqueue looked at the queue while thread 2 held the event, and did not notify);
+   with the notify the same schedule completes. *)
+Definition p13_schedule : list nat :=
+  [0; 0; 0; 0; 0; 0; 1; 2; 0; 1; 1; 2; 1; 2; 2; 1; 2; 0; 2; 2; 2; 1; 2; 1; 0; 2; 2; 2; 1; 0; 1; 2; 2; 2].
+
+Theorem putback_without_notify_refuted :
+  let tr := qc_run_code 400 [code_of AWait; code_of (AEnqueue 1 11%Z); processif_code false 0] p13_schedule in
+  existsb (fun a => match a with CDeadlock 1 _ => true | _ => false end) tr = true.
+Proof. vm_compute. reflexivity. Qed.
+
+Example p13_schedule_now_completes :
+  let tr := qc_run_case 400 [[AWait]; [AEnqueue 1 11%Z]; [AProcessIf 0]] p13_schedule in
   existsb (fun a => match a with CDeadlock _ _ => true | _ => false end) tr = false /\
   existsb (fun a => match a with CDone 0 => true | _ => false end) tr = true.
 Proof. vm_compute. split; reflexivity. Qed.
